@@ -50,6 +50,12 @@ CRASH_SHAPES = [
     "SELECT a FROM t",
     "SELECT * FROM t x PARALLEL JOIN u y ON x.a + 1 = y.a",
     "SELECT * FROM t x PARALLEL JOIN u y ON VF_PANIC(TRUE) = y.a",
+    # ON failing / panicking under SEVERAL keys of a PARALLEL join (every task reports; all of them must be collected)
+    "SELECT * FROM t x PARALLEL JOIN u y ON x.a <> y.a AND x.s",
+    "SELECT * FROM t x PARALLEL LEFT JOIN u y ON x.a <> y.a AND NOT (y.a << (x.a - 3) > 1000)",
+    "SELECT * FROM w x PARALLEL JOIN w y ON x.k >= y.k AND x.s",
+    "SELECT * FROM w x PARALLEL RIGHT JOIN w y ON x.k < y.k AND VF_PANIC(x.k <> 3)",
+    "SELECT * FROM w x PARALLEL HASH_JOIN w y ON x.k = y.k AND x.s + 1 > 0",
     "SELECT * FROM t x PARALLEL HASH_JOIN u y ON x.nokey.deep = y.a",
     "SELECT * FROM t x PARALLEL LEFT JOIN `u.a` y ON x.a = y.a",
     "SELECT ASYNC.VF_PANIC(TRUE) AS v FROM t",
@@ -107,7 +113,8 @@ def explore(chk, rnd, tier):
     gens = [lambda r: c01.gen_case(r, 3), lambda r: c02.gen_case(r, 3), c03.gen_case, c04.gen_case, c05.gen_sort_case,
             c06.gen_distinct, c06.gen_union, c07.gen_cte_case, c07.gen_derived_case, c07.gen_subq_case, c08.gen_case]
     doc = {"t": [{"a": 1, "s": "x", "arr": [1, [2]], "o": {"k": 1}, "items": [{"x": 1}]}, {"a": 2, "s": "y", "arr": [], "items": []}],
-           "u": [{"a": 1, "m": 1}, {"a": 3, "m": 2}], "n": 5, "nul": None}
+           "u": [{"a": 1, "m": 1}, {"a": 3, "m": 2}], "n": 5, "nul": None,
+           "w": [{"k": i, "a": i % 5, "s": "x"} for i in range(40)]}
     reqs, kinds = [], []
     for i in range(n):
         c = rnd.choice(gens)(rnd)
